@@ -1,5 +1,5 @@
 """C01 — lexing and parsing are total."""
-from . import suite, gen_lex, gen_prog
+from . import suite, gen_lex, gen_prog, gen_pairs, gen_layout
 from .propbase import *
 from . import basesuites
 
@@ -38,6 +38,15 @@ def run(chk):
     texts += gen_lex.keyword_texts()
     texts += gen_lex.scale_texts()
     # statement-start tokens as the last token of the source, and every token kind right before EOF
+    # what may follow the says keyword: every white space character (ASCII and not), letters of every UTF-8 width, nothing
+    for kw in ("says", "said", "say", "SAYS"):
+        for after in [" ", "", "\t", "\n", "\r\n", "\x0b", "\x0c", "\u0085", "\u00a0", "\u1680", "\u2000", "\u2003", "\u200a", "\u2028", "\u2029",
+                      "\u202f", "\u205f", "\u3000", "\u200b", "\ufeff", "é", "世", "🎸", ",", ".", "'", "(c)", "\""]:
+            texts += [f"Tommy {kw}{after}hello world\n", f"If true\nMy world at 1 {kw}{after}we'd never\n", f"Tommy {kw}{after}"]
+    # every token spelling next to every separator class next to a token spelling, in 32 statement contexts
+    texts += gen_pairs.pair_texts(rng, per_cell=1 if quick else 3, limit=9000 if quick else None)
+    # layout variants of block-structured programs (inserted lines of every kind, line endings, closing by end of file)
+    texts += [t for (_, t) in gen_layout.variants(quick, rng)]
     for w in gen_lex.WORDS:
         texts += [w, "say 1\n" + w, "say 1\n" + w + " (bye)", "x is 5\n" + w + "\n"]
     lex_lines = [f"(lex l{i} tokens {C.hx(t)})" for i, t in enumerate(texts)]
@@ -57,7 +66,10 @@ def run(chk):
     chk.rule = ("exhaustive strings up to length 3 (quick) / 4 (thorough) over the 16-symbol critical alphabet, token soup with "
                 "multi-line strings/comments, suffixes, non-ASCII letters/digits/whitespace/symbols, /repo/tests programs and "
                 "byte-level mutations of them, generated programs, nesting up to 200 (300) levels, every token kind as the "
-                "last token; lexer tokens and parser result (tree or error code+line+rendered message) compared model vs "
+                "last token; every white space character / letter width / punctuation mark right after every spelling of `says`; "
+                "adjacent-token pairs (490 spellings x 27 separator classes, each side, in 32 statement contexts); layout variants of "
+                "ten block-structured programs (an inserted line of 20 kinds at every boundary, 15 line-ending conventions, blank lines "
+                "removed / tripled, truncation at every line, indentation, two statements joined by 7 separators); lexer tokens and parser result (tree or error code+line+rendered message) compared model vs "
                 "implementation in debug and release; any panic, abort, hang or render failure is a violation. "
                 "distinct = (result kind, text identity)")
     conclude(chk, "C01", proved)
